@@ -233,3 +233,11 @@ impl Tn10 {
     pub fn sup10_bad(tone: &Option<u16>, syll_tone: u16) -> bool { let t = tone.unwrap_or_default(); t == 0 || t == syll_tone }
     pub fn sup10_good(tone: &Option<u16>, syll_tone: u16) -> bool { if let Some(t) = tone.as_ref() { *t == syll_tone } else { true } }
 }
+
+
+// ---- PAN-18 controls: a backward walk without / with a lower bound
+pub struct Bw18;
+impl Bw18 {
+    pub fn pan18_bad(xs: &[u8], last: u8) -> usize { let mut i = xs.len() - 1; while xs[i - 1] == last { i -= 1; } i }
+    pub fn pan18_good(xs: &[u8], last: u8) -> usize { let mut i = xs.len() - 1; while i > 0 && xs[i - 1] == last { i -= 1; } i }
+}
